@@ -264,7 +264,8 @@ func runType(c *fw.Ctx, idx int, tc tcase, bound int) {
 	outer := reflect.StructOf([]reflect.StructField{{Name: "F", Type: tc.ft, Tag: `json:"f"`}, {Name: "Tail", Type: probeT, Tag: `json:"tail"`}, {Name: "G", Type: tc.ft, Tag: `json:"g,omitempty"`}})
 	locus := chain(tc.ft, 3)
 	vals := []reflect.Value{}
-	for k := 0; k < 2; k++ {
+	// three records, one per block: a bank dropped after the first record can come back from the pool for the third
+	for k := 0; k < 3; k++ {
 		v := reflect.New(outer).Elem()
 		v.Field(0).Set(build(tc.ft, k+1))
 		v.Field(1).Set(build(probeT, 50+k))
@@ -435,7 +436,7 @@ func runType(c *fw.Ctx, idx int, tc tcase, bound int) {
 		}
 		// the source values must be unharmed too
 		collect()
-		for k := 0; k < 2; k++ {
+		for k := 0; k < 3; k++ {
 			want := reflect.New(outer).Elem()
 			want.Field(0).Set(build(tc.ft, k+1))
 			want.Field(1).Set(build(probeT, 50+k))
